@@ -153,3 +153,54 @@ func init() {
 		return c.Emit("Scmp.lean", sb.String())
 	})
 }
+
+// group "stun": the guards and slice expressions of stun.foreachAttr / stun.Is, in source order
+// (C08: the model's `stunAttrs` transcribes exactly these; `Scion.C08.stun_source_guards`).
+func init() {
+	register("stun", func(c *Ctx) error {
+		var sb strings.Builder
+		sb.WriteString("namespace Scion.Gen.Stun\n")
+		for _, fn := range []string{"foreachAttr", "Is"} {
+			fd, err := c.Func("pkg/stun", "", fn)
+			if err != nil {
+				return err
+			}
+			var conds, slices, assigns []string
+			ast.Inspect(fd.Body, func(n ast.Node) bool {
+				switch v := n.(type) {
+				case *ast.IfStmt:
+					conds = append(conds, c.Expr(v.Cond))
+				case *ast.ForStmt:
+					if v.Cond != nil {
+						conds = append(conds, "for "+c.Expr(v.Cond))
+					}
+				case *ast.SliceExpr:
+					slices = append(slices, c.Expr(v))
+				case *ast.AssignStmt:
+					if len(v.Lhs) == 1 && len(v.Rhs) == 1 {
+						if id, ok := v.Lhs[0].(*ast.Ident); ok && (id.Name == "attrLen" || id.Name == "attrLenWithPad") {
+							assigns = append(assigns, id.Name+" "+v.Tok.String()+" "+c.Expr(v.Rhs[0]))
+						}
+					}
+				case *ast.ReturnStmt:
+					if fn == "Is" && len(v.Results) == 1 {
+						conds = append(conds, "return "+c.Expr(v.Results[0]))
+					}
+				}
+				return true
+			})
+			fmt.Fprintf(&sb, "def %s_conds : List String := %s\n", fn, LeanStrList(conds))
+			fmt.Fprintf(&sb, "def %s_slices : List String := %s\n", fn, LeanStrList(slices))
+			fmt.Fprintf(&sb, "def %s_assigns : List String := %s\n", fn, LeanStrList(assigns))
+		}
+		for _, k := range []string{"headerLen", "lenFingerprint", "attrNumFingerprint"} {
+			v, err := c.ConstNat("pkg/stun", k)
+			if err != nil {
+				return err
+			}
+			fmt.Fprintf(&sb, "def %s : Nat := %s\n", k, v)
+		}
+		sb.WriteString("end Scion.Gen.Stun\n")
+		return c.Emit("Stun.lean", sb.String())
+	})
+}
